@@ -1,3 +1,5 @@
--- This module serves as the root of the `HG` library.
--- Import modules here that should be built as part of the library.
-import HG.Basic
+import HG.Model.Basic
+import HG.Model.Graph
+import HG.Model.Sched
+import HG.Model.Exec
+import HG.Model.Run
